@@ -95,6 +95,26 @@ def check_member(ctx, agent, spec, before, gen, mutation_label):
                     ctx.fail(f"C02/target_weights_differ_after_mutation/{sname}",
                              "right after the mutation a target/shared network does not carry the weights of the network it shadows",
                              algo=algo, mut=str(mut), index=i, tensors=bad[:3])
+    # (b') share_encoders: the encoders of the other networks are "shared networks" of the policy's encoder; the sharing is a copy
+    #      that the mutation hook refreshes, so RIGHT AFTER a mutation round it must carry the policy encoder's weights
+    if getattr(agent, "share_encoders", False) and spec.get("share"):
+        pol_net = _nets(agent, agent.registry.policy)[0]
+        if hasattr(pol_net, "encoder"):
+            src = T.all_tensors(pol_net.encoder)
+            pnames = dict(pol_net.encoder.named_parameters()).keys()
+            for name in _eval_names(agent):
+                if name == agent.registry.policy:
+                    continue
+                for i, n in enumerate(_nets(agent, name)):
+                    if not hasattr(n, "encoder") or T.arch_of(n.encoder) != T.arch_of(pol_net.encoder):
+                        continue
+                    dst = T.all_tensors(n.encoder)
+                    bad = [k for k in pnames if k not in dst or dst[k].shape != src[k].shape or not torch.equal(dst[k], src[k])]
+                    if bad:
+                        ctx.fail(f"C02/shared_encoder_copy_stale_after_mutation/{name}",
+                                 "share_encoders: right after the mutation the encoder of a network that shares the policy's encoder "
+                                 "does not carry the policy encoder's weights", algo=algo, mut=str(mut), index=i, tensors=bad[:3])
+            ctx.label("shared-encoder-copies-checked")
     # (c) networks trained alongside the policy received the same architecture change
     pol = agent.registry.policy
     pol_after = [_arch_fields(n) for n in _nets(agent, pol)]
